@@ -133,6 +133,7 @@ type Fault struct {
 	Hold  string `json:"hold,omitempty"` // park until released
 	Mode  string `json:"mode,omitempty"` // listings: perm, dup, empty; sysctl reads: sampled (value taken before the delay/hold)
 	Arg   int64  `json:"arg,omitempty"`  // seed for perm/dup
+	Skip  int    `json:"skip,omitempty"` // let this many matching calls (after From) pass first
 }
 
 // RASpec is a router advertisement sent by a simulated peer router, in wire
